@@ -37,7 +37,7 @@ META = {
              '(22 per model quick, 30 thorough; 5 resp. all 13 junk values), plus removal of each required key. Non-trivial: the junk lies inside a '
              'nested class (depth >= 2); distinct = distinct (model, path, junk).'),
     'trusted_base': ['message renderers (errors.py message properties, safe_dumps) are exercised on every failing load but not modelled'],
-    'assumptions': ['JSON documents with string keys', 'attribution is claimed for the ParseError family (class and field) and for '
+    'assumptions': ['JSON documents with string keys', 'strings in the malformed stream are ASCII (the model iterates bytes)', 'attribution is claimed for the ParseError family (class and field) and for '
                     'MissingFields (class and missing names); MissingFields.field_name is not claimed (plain attribute, outermost)',
                     'a top-level None document raises MissingData with class_name None (nested_class_name names the class)'],
 }
@@ -279,6 +279,16 @@ def build_models(ctx):
 RESOLVED = set()
 
 
+def ascii_tree(t):
+    """The model's strings are byte lists: iterating a str yields bytes, Python yields characters.
+    Documents of the malformed stream (where strings do get iterated) are kept ASCII."""
+    if isinstance(t, list):
+        if len(t) == 2 and t[0] == 'S' and isinstance(t[1], str):
+            return ['S', t[1].encode('ascii', 'replace').decode()]
+        return [ascii_tree(x) for x in t]
+    return t
+
+
 def run(ctx):
     # listed findings first: a resolved finding's region is checked like any other input and the
     # faithful-to-the-defect model is not compared inside it
@@ -301,7 +311,7 @@ def run(ctx):
         # a well-populated instance (no empty containers on the path to nested classes)
         inst = None
         for attempt in range(30):
-            cand = C2.gen_inst(ctx.sub_rng('inst', mb.mi, attempt), 0, m)
+            cand = ascii_tree(C2.gen_inst(ctx.sub_rng('inst', mb.mi, attempt), 0, m))
             doc = dump_doc(cand, data(0), m)
             ps = []
             positions(data(0), doc, m, [], [], ps, 0)
